@@ -14,6 +14,7 @@ import (
 	"verif/sim/core"
 	"verif/sim/props/c04"
 	"verif/sim/props/c05"
+	"verif/sim/props/c06"
 	"verif/sim/props/c07"
 	"verif/sim/props/c13"
 	"verif/sim/props/c14"
@@ -24,6 +25,7 @@ func props() map[string]core.Prop {
 	return map[string]core.Prop{
 		"C04": c04.Prop{},
 		"C05": c05.Prop{},
+		"C06": c06.Prop{},
 		"C07": c07.Prop{},
 		"C13": c13.Prop{},
 		"C14": c14.Prop{},
